@@ -97,6 +97,11 @@ def cargo(args, d):
     return subprocess.CompletedProcess(p.args, p.returncode, out, err)
 
 
+# the caller variables of PRELUDE with fixed values (the compile-fail crates do not link the harness)
+REJECTS_PRELUDE = ("let (a, b, c, d) = (7.5f32, -3.25f32, 99u8, 41i32); "
+                   "let (normalized_time, keyframe, builder, timeline, values, time) = (0.625f32, 3.5f32, -2.0f32, 9.0f32, 0.5f32, 4.25f32);")
+
+
 def observe_rejects(name, header, lines):
     """lines: list of (text_of_statement, class, ill_formed). Each becomes its own fn on its own
     source line. Returns (ok, records) where records carry the number of error diagnostics
@@ -105,7 +110,7 @@ def observe_rejects(name, header, lines):
     base = header.count("\n") + 1
     recs = []
     for i, (text, cls, ill) in enumerate(lines):
-        src.append(f"#[allow(unused)] fn r{i}() {{ let _ = {text}; }}")
+        src.append(f"#[allow(unused)] fn r{i}() {{ {REJECTS_PRELUDE} let _ = {text}; }}")
         recs.append({"line": base + i + 1, "class": cls, "text": text, "ill_formed": ill, "errors": 0})
     src.append("fn main() {}")
     main_rs = "\n".join(src) + "\n"
@@ -266,6 +271,9 @@ def lit_values(v, unit):
     return mac, f"({f32lit(v)} / 1000.0f32)", mac == reading
 
 
+LOCALS_IN_VALUES = True
+
+
 def gen_fields(rnd, allow_empty=True):
     fs = []
     for name in ["a", "b", "c", "d"]:
@@ -274,6 +282,9 @@ def gen_fields(rnd, allow_empty=True):
                 v = rnd.choice(["-12.5", "3.0", "100.0", "0.0", "-250.75", "64.125", "7.0", "1000.0", "-0.5"])
                 if rnd.random() < 0.15:
                     v = rnd.choice(["(1.5 + 2.0)", "K_F", "half(9.0)", "mix(1.0, 5.0)", "2.0 * 3.5", "-K_F", "{ 4.0 }", "f32::from(3u8)"])
+                elif LOCALS_IN_VALUES and rnd.random() < 0.12:
+                    # caller variables (defined next to every expansion site, see PRELUDE)
+                    v = rnd.choice(["normalized_time * 8.0", "keyframe", "builder + timeline", "values", "time", "a", "b - 1.0"])
             elif name == "c":
                 v = str(rnd.randint(40, 200))
                 if rnd.random() < 0.15:
@@ -535,11 +546,11 @@ def c15(tier, seed, rest):
     ok, rej_path = observe_rejects(f"c15_rejects_{tier}", header, rejects)
     if not ok:
         return inconclusive("C15", "compile-fail observation could not run")
-    body = ["// generated by gen/gendriver.py — do not edit", "#![allow(unused_imports, clippy::all)]", "use mina::prelude::*;",
+    body = ["// generated by gen/gendriver.py — do not edit", "#![allow(unused_imports, unused_variables, clippy::all)]", "use mina::prelude::*;",
             "use mina_verif::genrt::*;", V_DEF, "fn cases() -> Vec<TlCase<V>> { vec!["]
     for (i, sent, twin, exact, sig, mac, bld) in cases:
         body.append(f"  /*CASE {i}*/ TlCase {{ idx: {i}, sentence: {rs_str(sent)}, twin: {rs_str(twin)}, exact: {str(exact).lower()}, sig: {rs_str(sig)}, "
-                    f"mac: || {mac}, bld: || {bld} }},")
+                    f"mac: || {{ {PRELUDE} {mac} }}, bld: || {{ {PRELUDE} {bld} }} }},")
     body.append("] }")
     body.append("""
 fn main() {
@@ -572,7 +583,10 @@ sentence with at least one timing word or keyframe; distinct = set of grammar fe
 
 STATES = ["St::A", "St::B", "St::C", "St::D", "St::E"]
 # caller-scope variables every animator! case (and its builder twin) is expanded next to
-PRELUDE = "let (a, b, c, d) = (7.5f32, -3.25f32, 99u8, 41i32);"
+# (they vary with a knob the driver sets per history, so one expansion site is evaluated with different values, and
+# include names a macro is likely to use for its own temporaries)
+PRELUDE = ("let k_ = mina_verif::genrt::knob(); let (a, b, c, d) = (7.5f32 + k_ as f32, -3.25f32 - k_ as f32, 99u8 + k_ as u8, 41i32 + k_ as i32); "
+           "let (normalized_time, keyframe, builder, timeline, values, time) = (0.625f32 + k_ as f32, 3.5f32, -2.0f32, 9.0f32, 0.5f32, 4.25f32);")
 
 
 def c16(tier, seed, rest):
@@ -610,7 +624,7 @@ def c16(tier, seed, rest):
             # tail (from Default and from a non-default base), parenthesised and method-call forms
             expr = rnd.choice(["V { a: 1.5, b: -2.0, c: 77, d: 9 }", "make_v(3)", "V { c: 200, ..V::default() }", "make_v(-4)",
                                "V { c: 200, ..make_v(3) }", "V { a: 4.5, d: -7, ..make_v(-2) }", "(V { b: 8.0, ..make_v(2) })",
-                               "make_v(6).clone()", "V { ..make_v(5) }", "V::default()"])
+                               "make_v(6).clone()", "V { ..make_v(5) }", "V::default()", "make_v(d)", "V { a, ..make_v(d - 40) }"])
             dflt_m, dv, from_state = f"default({st0}, {expr}),", expr, f".from_state({st0})"
             feats.append("default-expr")
         # arms
